@@ -38,7 +38,45 @@ def _find(body, kind, name):
     raise ValueError("%s %s not found" % (kind.__name__, name))
 
 
+class _Alpha(ast.NodeTransformer):
+    """Number parameters, assigned locals and nested function names of one function (nested scopes share the
+    numbering) by first occurrence in source order: a renamed local gives the same text."""
+
+    def __init__(self, fn):
+        self.names = {}
+        for n in ast.walk(fn):
+            pass
+        order = []
+        for n in ast.walk(fn):
+            if isinstance(n, ast.arg):
+                order.append((n.lineno, n.col_offset, n.arg))
+            elif isinstance(n, ast.Name) and isinstance(n.ctx, ast.Store):
+                order.append((n.lineno, n.col_offset, n.id))
+            elif isinstance(n, ast.FunctionDef) and n is not fn:
+                order.append((n.lineno, n.col_offset, n.name))
+        for _, _, name in sorted(order):
+            self.names.setdefault(name, "_l%d" % len(self.names))
+        self.top = fn
+
+    def visit_arg(self, a):
+        a.arg = self.names.get(a.arg, a.arg)
+        return a
+
+    def visit_Name(self, n):
+        n.id = self.names.get(n.id, n.id)
+        return n
+
+    def visit_FunctionDef(self, f):
+        self.generic_visit(f)
+        if f is not self.top:
+            f.name = self.names.get(f.name, f.name)
+        return f
+
+
 def _strip_doc(fn):
+    import copy
+    fn = copy.deepcopy(fn)
+    fn = _Alpha(fn).visit(fn)
     body = list(fn.body)
     if body and isinstance(body[0], ast.Expr) and isinstance(getattr(body[0], "value", None), ast.Constant) \
             and isinstance(body[0].value.value, str):
